@@ -85,7 +85,46 @@ pub fn event_to_json(e: &DynEvent) -> Value {
     })
 }
 
-pub fn event_from_json(v: &Value) -> Result<DynEvent, String> {
+/// an event of either kind, scanned through its own getter
+pub enum AnyEvent {
+    Dyn(DynEvent),
+    Derived(crate::derived::DEv),
+}
+
+impl FieldGetter for AnyEvent {
+    fn get_from_iter(&self, i: core::slice::Iter<'_, String>) -> Option<FieldValue> {
+        match self {
+            AnyEvent::Dyn(e) => e.get_from_iter(i),
+            AnyEvent::Derived(e) => e.get_from_iter(i),
+        }
+    }
+}
+
+impl Event for AnyEvent {
+    fn id(&self) -> i64 {
+        match self {
+            AnyEvent::Dyn(e) => e.id(),
+            AnyEvent::Derived(e) => e.id(),
+        }
+    }
+    fn source(&self) -> Cow<'_, str> {
+        match self {
+            AnyEvent::Dyn(e) => e.source(),
+            AnyEvent::Derived(e) => e.source(),
+        }
+    }
+}
+
+pub fn event_from_json(v: &Value) -> Result<AnyEvent, String> {
+    if let Some(d) = v.get("derived") {
+        let source = v["source"].as_str().ok_or("source")?;
+        let id = v["id"].as_i64().ok_or("id")?;
+        return Ok(AnyEvent::Derived(crate::derived::from_json(source, id, d)));
+    }
+    dyn_event_from_json(v).map(AnyEvent::Dyn)
+}
+
+pub fn dyn_event_from_json(v: &Value) -> Result<DynEvent, String> {
     let source = v["source"].as_str().ok_or("source")?.to_string();
     let id = v["id"].as_i64().ok_or("id")?;
     let mut fields = vec![];
